@@ -21,6 +21,7 @@ from vf import boot
 from vf.boot import note
 from vf.h import arena as A
 from vf.h import inv as I
+from vf.h import stubs
 from nrel.hive.state.simulation_state.update.step_simulation_ops import apply_instructions
 
 CASE = int(os.environ.get("VF_CASE", "0"))
@@ -129,6 +130,7 @@ def _body(
     ms: int,
     ice: bool,
 ) -> bool:
+    stubs.install_random_shim()  # any randomness reachable from nrel.hive globals is a solver-chosen draw
     c = _cell(cell)
     p = A.plug_of(plug) if KIND in PLUG_KINDS else "LEVEL_2"
     ip = A.plug_of(iplug) if IK in PLUG_INSTR else "LEVEL_2"
@@ -153,7 +155,7 @@ def _body(
     # the pre-state must itself satisfy INV (one-step induction)
     if not (I.req_ok(sim, w.vids) and I.mem_ok_vehicle(sim, v_pre) and I.loc_ok(sim, w.vids)):
         return True
-    if rd == 1 and KIND != 9:
+    if rd == 1 and KIND not in (9, 12):
         return True
     instr = A.instruction(IK, ip)
     env, rec = A.env_with_recorder()
